@@ -63,7 +63,7 @@ def run(ctx):
                 "every probe (probes lie on interval ends and in the gaps); the real ImmutIntervalMap must raise KeyError exactly for the "
                 "invalid dictionaries and agree on every probe, 'in', len and iteration")
     ctx.assumptions += ["end points and keys are multiples of 0.5 given as ints or floats", "pure functions: exploration level"]
-    ends = [0, 2, 4, 6] if quick else [0, 2, 4, 6, 8, 10]
+    ends = [0, 2, 4, 6, 8] if quick else [0, 2, 4, 6, 8, 10]
     probes = list(range(-1, max(ends) + 2))
     k = {"Ends": model.tla_set(ends), "MaxIntervals": 3, "MaxProbe": max(ends) + 1}
     n = [0]
